@@ -35,12 +35,15 @@ func c20Part(name string, mk func(thorough bool) *c20Cfg) explore.Part {
 		if cfg.belowMax > 0 {
 			init = fmt.Sprintf("maximum - %d packets", cfg.belowMax)
 		}
+		if cfg.startMTU > 0 {
+			init += fmt.Sprintf(", start state: SetMaxDatagramSize(%d) already applied", cfg.startMTU)
+		}
 		return explore.BFSSpec{
 			New:              func() explore.Instance { return newC20Inst(cfg) },
 			MaxDepth:         cfg.depth,
 			PanicIsViolation: true,
-			Rule: fmt.Sprintf("BFS depth %d over the real cubicSender (%s, initial window %s) + real pacer + real RTTStats with a harness clock; alphabet: send sizes %v (0 full,1 half,2 one byte) nonretransmittable=%v fill=%v burst=%v paced-run=%d, ack %v / lose %v (0 oldest,1 newest,2 all; ack only for packets younger than 60 s), RTT samples %v (<=%d per history), MTU +80 x<=%d, RTO=%v x<=%d, clock steps %v huge(2^62ns)=%v to-pacer-deadline=%v; pacer clause evaluated=%v; state = canon(sender) + ledger + model",
-				cfg.depth, algo, init, cfg.sizes, cfg.nonRetr, cfg.fill, cfg.burst, cfg.paced, cfg.acks, cfg.losses, cfg.rtts, cfg.maxRTTOps, cfg.maxMTU, cfg.rto, cfg.maxRTO, cfg.steps, cfg.huge, cfg.advPace, cfg.pacer),
+			Rule: fmt.Sprintf("BFS depth %d over the real cubicSender (%s, initial window %s) + real pacer + real RTTStats with a harness clock; alphabet: send sizes %v (0 full,1 half,2 one byte) nonretransmittable=%v fill=%v burst(while HasPacingBudget)=%v paced-run(at TimeUntilSend)=%d early-run(at the earliest instant HasPacingBudget opens)=%d, ack %v / lose %v (0 oldest,1 newest,2 all; ack only for packets younger than 60 s), RTT samples %v (<=%d per history), MTU increase by %v bytes x<=%d, RTO=%v x<=%d, clock steps %v huge(2^62ns)=%v to-pacer-deadline=%v to-earliest-HasPacingBudget=%v; pacer clause evaluated=%v (a send is authorised when HasPacingBudget is true - up to the current datagram size - or the budget covers it); state = canon(sender) + ledger + model",
+				cfg.depth, algo, init, cfg.sizes, cfg.nonRetr, cfg.fill, cfg.burst, cfg.paced, cfg.early, cfg.acks, cfg.losses, cfg.rtts, cfg.maxRTTOps, cfg.mtuStepList(), cfg.maxMTU, cfg.rto, cfg.maxRTO, cfg.steps, cfg.huge, cfg.advPace, cfg.advGate, cfg.pacer),
 		}
 	}
 	return explore.Part{
@@ -76,13 +79,33 @@ func c20WinCfg(reno bool, initPkts int, rto bool, dq, dt int) func(bool) *c20Cfg
 func c20PacerCfg(reno bool, initPkts int, dq, dt int) func(bool) *c20Cfg {
 	return func(th bool) *c20Cfg {
 		c := &c20Cfg{reno: reno, initPkts: protocol.ByteCount(initPkts), depth: dq, pacer: true,
-			sizes: []int{0, 2}, nonRetr: true, burst: true, paced: 8, acks: []int{0}, losses: []int{0},
+			sizes: []int{0, 2}, nonRetr: true, burst: true, paced: 8, early: 8, acks: []int{0}, losses: []int{0},
 			rtts: []time.Duration{time.Millisecond, 10 * time.Second}, maxRTTOps: 2,
 			maxMTU: 1,
-			steps:  []time.Duration{time.Microsecond, time.Millisecond, time.Second, time.Hour}, huge: true, advPace: true,
+			steps:  []time.Duration{time.Microsecond, time.Millisecond, time.Second, time.Hour}, huge: true, advPace: true, advGate: true,
 		}
 		if th {
 			c.depth = dt
+		}
+		return c
+	}
+}
+
+// pacer gate after path MTU discovery: the datagram size has already been raised (start
+// state) and is raised again inside the history; send opportunities arrive at the pacing
+// timer, at fine clock steps and at the earliest instant the gate opens. Narrow alphabet,
+// one level deeper than the pacer parts.
+func c20PacerMTUCfg(reno bool, initPkts int, dq, dt int) func(bool) *c20Cfg {
+	return func(th bool) *c20Cfg {
+		c := &c20Cfg{reno: reno, initPkts: protocol.ByteCount(initPkts), depth: dq, pacer: true,
+			startMTU: 1452, mtuSteps: []protocol.ByteCount{1, 48}, maxMTU: 1,
+			sizes: []int{0, 3}, burst: true, paced: 8, early: 8, acks: []int{0}, losses: []int{0},
+			rtts: []time.Duration{time.Millisecond, 100 * time.Millisecond}, maxRTTOps: 1,
+			steps: []time.Duration{time.Microsecond, 100 * time.Microsecond}, advPace: true, advGate: true,
+		}
+		if th {
+			c.depth = dt
+			c.maxMTU = 2
 		}
 		return c
 	}
@@ -110,6 +133,8 @@ func TestVerifC20Cc(t *testing.T) {
 		c20Part("reno-window8", c20WinCfg(true, 8, true, 7, 8)),
 		c20Part("reno-pacer", c20PacerCfg(true, 4, 5, 6)),
 		c20Part("cubic-pacer", c20PacerCfg(false, 4, 5, 6)),
+		c20Part("reno-pacer-mtu", c20PacerMTUCfg(true, 4, 6, 7)),
+		c20Part("cubic-pacer-mtu", c20PacerMTUCfg(false, 4, 5, 6)), // Cubic is not selected by the production constructors: one level less
 		c20Part("reno-cap", c20CapCfg(true, 6, 8)),
 		c20Part("cubic-cap", c20CapCfg(false, 6, 8)),
 		c20Part("reno-window3", c20WinCfg(true, 3, false, 7, 8)),
